@@ -1,7 +1,7 @@
 #!/bin/bash
 # runs every registered check in the thorough tier, one after the other; prints one line per check
 cd "$(dirname "$0")/.."
-for id in C30 C29 C31 C27 C28 C26 C25 C22 C10 C11 C20 C21 C03; do
+for id in ${VERIF_SWEEP_IDS:-C30 C29 C31 C27 C28 C26 C25 C22 C10 C11 C20 C21 C03}; do
   s=$(date +%s)
   ./check $id --tier thorough > thorough_$id.log 2>&1
   echo "$id rc=$? $(( $(date +%s) - s ))s $(grep -c VIOLATION thorough_$id.log) violations"
